@@ -55,9 +55,10 @@ def pCfg : P Cfg := do
   let batch ← nat
   let bucket ← nat
   let minIonIndex ← nat
+  let tmt ← nat
   pure { cleave, restrict := restrict.map (·.toUInt8), cterm, semi, mc, minLen, maxLen, minMass, maxMass, statics, vars,
          maxVar, decoyTag, genDecoys, ptol, ftol, isoLo, isoHi, zLo, zHi, reportPsms, chimera, minPeaks, maxPeaks,
-         minMatched, maxFragCharge, deisotope, annotate, pin, predictRt, batch, bucket, minIonIndex }
+         minMatched, maxFragCharge, deisotope, annotate, pin, predictRt, batch, bucket, minIonIndex, tmt }
 
 def pSpectrum : P Spectrum := do
   let title ← bytes
@@ -100,13 +101,17 @@ def pFrag : P FragRow := do
   let mzCalc ← nat; let mzExp ← nat; let intensity ← nat
   pure { psmId, kind, ordinal, charge, mzCalc, mzExp, intensity }
 
+def pTmtRow : P TmtRow := do
+  let filename ← bytes; let scannr ← bytes; let values ← list nat
+  pure { filename, scannr, values }
+
 def firstSome {α} (l : List α) (f : α → Option String) : Option String := l.findSome? f
 
 def verdict (run : Run) (impl : List String) : String :=
   match impl with
   | "ok" :: rest =>
-    match runPrefix (do let r ← list pRow; let p ← list pPin; let f ← list pFrag; pure (r, p, f)) rest with
-    | some ((rows, pins, frags), []) =>
+    match runPrefix (do let r ← list pRow; let p ← list pPin; let f ← list pFrag; let t ← list pTmtRow; pure (r, p, f, t)) rest with
+    | some ((rows, pins, frags, tmts), []) =>
       match firstSome rows (fun r => (rowViolation run r).map (fun c => c ++ "@" ++ strOfBytes r.filename ++ ":" ++ strOfBytes r.scannr ++ "#" ++ toString r.rank)) with
       | some c => "bad:row_" ++ c
       | none =>
@@ -121,7 +126,10 @@ def verdict (run : Run) (impl : List String) : String :=
             | none =>
               match plantedViolation run rows with
               | some c => "bad:" ++ c
-              | none => "ok"
+              | none =>
+                match (if run.cfg.tmt != 0 then tmtViolation run tmts else none) with
+                | some c => "bad:" ++ c
+                | none => "ok"
     | _ => "bad:unparsable_reply"
   | ["panic"] => "bad:program_panicked"
   | [e] => "bad:program_failed_" ++ e
